@@ -92,8 +92,12 @@ func HarnessC11_EncDec() {
 	obj, sr, ch := validCfg()
 	var n int
 	if vTier() == 1 {
-		// every raw length 1..8184 (two-level choice keeps each fork below the enumeration limit)
-		n = vChoice(128)*64 + vChoice(64) + 1
+		// every raw length 1..512, then every multiple of 64 and its neighbours up to 8184
+		if vChoice(2) == 0 {
+			n = 1 + vChoice(256) + 256*vChoice(2)
+		} else {
+			n = 64*(8+vChoice(120)) + vChoice(3) - 1
+		}
 		if n > 8184 {
 			vAssume(false)
 		}
@@ -146,7 +150,7 @@ func HarnessC11_Concat() {
 		obj, sr, ch := validCfg()
 		n := 1 + vChoice(3)
 		if vTier() == 1 {
-			n = 1 + vChoice(6)
+			n = 1 + vChoice(4)
 		}
 		raw := vBytes(n)
 		enc := &ADTSImpl{asc: AudioSpecificConfig{Object: obj, SampleRate: sr, Channels: ch}}
